@@ -15,4 +15,6 @@ def bounded_jobs(tier, seed):
         bj('rcc.b_C07', 'run_target_paths', tier, seed),
         bj('rcc.b_C07', 'run_writer_options', tier, seed),
         bj('rcc.b_C07', 'run_process_locale', tier, seed),
+        bj('rcc.b_C07', 'run_invalid_locations', tier, seed),
+        bj('rcc.b_C07', 'run_warning_locations', tier, seed),
     ]
